@@ -620,6 +620,9 @@ def aligned_scripts(prop, desc_len, max0, distances=QUICK_DISTANCES):
             sc["foreign-address-ack-around-set-%s" % nm] = (
                 [on] + bin_ + far + [tok("SETUP", 0, 0), dat("DATA0", s8)] + far + fout + [tok("IN", 0, 0), dict(ACK)] + far
                 + [tok("IN", a_new, 1), dict(ACK)], a_new)
+        # a value of 0 is a value like any other: configuration n then 0, address n then 0 (and the read-back)
+        sc["config-n-then-0"] = (wr(0, SC) + rd(0, GC) + wr(0, S(0, 9, 0, 0, 0)) + rd(0, GC) + wr(0, S(0, 9, 7, 0, 0)) + rd(0, GC), 0)
+        sc["address-n-then-0"] = (wr(0, SA) + [tok("IN", 5, 3)] + wr(5, S(0, 5, 0, 0, 0)) + [tok("IN", 5, 3), tok("IN", 0, 3)], 0)
         sc["set-address"] = (wr(0, SA) + [tok("IN", 0, 3), tok("IN", 5, 3)], 5)
         sc["set-address-ack-lost"] = (wr(0, SA, ack_lost=True) + [tok("IN", 0, 3), tok("IN", 5, 3)], 5)
         sc["set-config"] = (wr(0, SC), 0)
